@@ -115,7 +115,7 @@ class Result:
     """Outcome of executing one plan."""
 
     def __init__(self):
-        self.log = EventLog()
+        self.log = EventLog(keep=int(os.environ.get("RLSIM_LOG_KEEP", "0")))
         self.violations = []  # dicts: clause, site, detail
         self.faults = {}  # fault kind -> fired count
         self.probes = {}  # reach probe -> count
